@@ -202,6 +202,26 @@ type fnExit struct {
 	Pred  *ssa.BasicBlock // if the error result is a phi: the predecessor edge this exit stands for
 	Kind  exitKind
 	Ret   *ssa.Return
+	// Delegate: the error result is exactly the error result of this call (`return f()`,
+	// or `x, err := f(); return x, err` without a test): the caller sees f's verdict.
+	Delegate ssa.CallInstruction
+}
+
+// delegateOf: v is the last result (or the only result) of a call.
+func delegateOf(v ssa.Value) ssa.CallInstruction {
+	switch x := v.(type) {
+	case *ssa.Extract:
+		if c, ok := x.Tuple.(*ssa.Call); ok {
+			if x.Index == c.Call.Signature().Results().Len()-1 {
+				return c
+			}
+		}
+	case *ssa.Call:
+		if x.Call.Signature().Results().Len() == 1 {
+			return x
+		}
+	}
+	return nil
 }
 
 // errResultIndex returns the index of the last result if it is of type error (or a
@@ -246,7 +266,7 @@ func exitsOf(fn *ssa.Function) []fnExit {
 					} else if provablyNonNil(e, b.Preds[i]) {
 						k = exitFailure
 					}
-					out = append(out, fnExit{Block: b, Pred: b.Preds[i], Kind: k, Ret: last})
+					out = append(out, fnExit{Block: b, Pred: b.Preds[i], Kind: k, Ret: last, Delegate: delegateOf(e)})
 				}
 				continue
 			}
@@ -256,7 +276,7 @@ func exitsOf(fn *ssa.Function) []fnExit {
 			} else if provablyNonNil(ev, b) {
 				k = exitFailure
 			}
-			out = append(out, fnExit{Block: b, Kind: k, Ret: last})
+			out = append(out, fnExit{Block: b, Kind: k, Ret: last, Delegate: delegateOf(ev)})
 		}
 	}
 	return out
@@ -491,12 +511,30 @@ func (w *World) mustPassOK(fn *ssa.Function, pred func(string) bool, resultIdx i
 		}
 	}
 	if len(avoid) == 0 {
+		// pure delegation: every non-failing exit hands the callee's own verdict to the caller
+		allDelegated := true
+		n := 0
+		for _, ex := range exitsOf(fn) {
+			if ex.Kind == exitFailure || ex.Kind == exitPanic {
+				continue
+			}
+			n++
+			if !(ex.Kind == exitUnknown && ex.Delegate != nil && pred(calleeName(ex.Delegate))) {
+				allDelegated = false
+			}
+		}
+		if allDelegated && n > 0 {
+			return sites, ""
+		}
 		return sites, fmt.Sprintf("result of %s is never tested in %s (%s)", what, short(fn.String()), strings.Join(sites, ","))
 	}
 	reach, used := reachAvoiding(fn, nil, avoid)
 	for _, ex := range exitsOf(fn) {
 		if ex.Kind == exitFailure || ex.Kind == exitPanic {
 			continue
+		}
+		if ex.Kind == exitUnknown && ex.Delegate != nil && pred(calleeName(ex.Delegate)) {
+			continue // the caller receives the callee's own verdict
 		}
 		bad := false
 		if ex.Pred != nil {
@@ -717,12 +755,8 @@ func backSlice(v ssa.Value, atoms *sliceAtoms, seen map[ssa.Value]bool, depth in
 		}
 		backSlice(x.X, atoms, seen, depth+1)
 	case *ssa.Alloc:
-		if refs := x.Referrers(); refs != nil {
-			for _, r := range *refs {
-				if st, ok := r.(*ssa.Store); ok && st.Addr == x {
-					backSlice(st.Val, atoms, seen, depth+1)
-				}
-			}
+		for _, sv := range storedInto(x, 0) {
+			backSlice(sv, atoms, seen, depth+1)
 		}
 	case *ssa.Call:
 		n := calleeName(x)
@@ -746,6 +780,37 @@ func backSlice(v ssa.Value, atoms *sliceAtoms, seen map[ssa.Value]bool, depth in
 			}
 		}
 	}
+}
+
+// storedInto returns every value stored into an address derived from addr (the alloc
+// itself, its elements &a[i], its fields &a.f), flow-insensitively.
+func storedInto(addr ssa.Value, depth int) []ssa.Value {
+	var out []ssa.Value
+	refs := addr.Referrers()
+	if refs == nil || depth > 6 {
+		return out
+	}
+	for _, r := range *refs {
+		switch x := r.(type) {
+		case *ssa.Store:
+			if x.Addr == addr {
+				out = append(out, x.Val)
+			}
+		case *ssa.IndexAddr:
+			if x.X == addr {
+				out = append(out, storedInto(x, depth+1)...)
+			}
+		case *ssa.FieldAddr:
+			if x.X == addr {
+				out = append(out, storedInto(x, depth+1)...)
+			}
+		case *ssa.MapUpdate:
+			if x.Map == addr {
+				out = append(out, x.Key, x.Value)
+			}
+		}
+	}
+	return out
 }
 
 func sliceOf(v ssa.Value) *sliceAtoms {
